@@ -19,6 +19,7 @@ type gstate struct {
 	handle     bool // such a handle exists and is still the builder's cache entry for the target
 	handleDead bool // it has been cancelled and no fresh lookup has replaced it yet
 	handleMode bool // the live patch was installed through the cancelled handle: only the handle may touch the target
+	hadBad     bool // a rejected configuration was attempted on this target: the by-name lookup path cannot be used
 }
 
 type gmodel struct {
@@ -62,6 +63,9 @@ func (m *gmodel) step(op world.Op) bool {
 		}
 		if op.K == "when" && t.SkipRecv != nil && !t.SkipRecv(op.N) {
 			return false // clause arguments would have to include a receiver value
+		}
+		if g.hadBad && t.ByName != nil && t.ByName(op.N) {
+			return false // rejected configurations go through the history's lookup path; by name goom cannot type-check
 		}
 	}
 	if gg := m.g(op.T); gg.handleMode {
@@ -162,6 +166,10 @@ func (m *gmodel) step(op world.Op) bool {
 		if g.owner == -2 || !m.usable(op.T, op.B) {
 			return false
 		}
+		if g.how >= 0 && t.ByName != nil && t.ByName(g.how) {
+			return false
+		}
+		g.hadBad = true
 		if g.handleDead {
 			g.handle, g.handleDead = false, false
 		}
